@@ -12,7 +12,7 @@
    pattern object, not a plain value. *)
 From Coq Require Import ZArith QArith List Bool.
 Require Import SC3.lib.PyNum SC3.model.Pattern SC3.proofs.C13_sound SC3.proofs.C13_meaning
-               SC3.proofs.C13_complete SC3.proofs.C13_finite.
+               SC3.proofs.C13_complete SC3.proofs.C13_finite SC3.proofs.C13_meaning2.
 Import ListNotations.
 Definition oracle := Z -> hist -> Z -> Z -> Z.
 
@@ -124,6 +124,100 @@ Theorem pswitch_embeds_in_place : forall (rnd : oracle) k m lst w iv lw ew z q, 
   den rnd (S k) m (Pswitch lst w) = tapp (den rnd k Emb q) (tswitch (den rnd k Emb) lst lw ew).
 Proof. exact pswitch_l. Qed.
 
+(* --- documented meaning of the remaining classes of the quantifier *)
+(* Place: item i of repeats*size is taken from the sub-list lst[(i mod size + offset) mod size] at
+   position (i / size) mod its length (a plain item = one-element sub-list) *)
+Theorem place_interlaces : forall (rnd : oracle) k m lst (r : nat) off qs,
+  lst <> [] -> length qs = (r * length lst)%nat ->
+  (forall i, (i < r * length lst)%nat ->
+     exists sub, wrap_at lst (Z.of_nat (i mod length lst) + off) = Some sub /\
+                 nth_error qs i = wrap_at sub (Z.of_nat (i / length lst)) /\ sub <> []) ->
+  (forall q, In q qs -> snd (den rnd k Emb q) = EStop) -> (r * length lst < k)%nat ->
+  den rnd (S k) m (Place lst (Fin (Z.of_nat r)) off) = (flat_map (fun q => fst (den rnd k Emb q)) qs, EStop).
+Proof. exact place_meaning_den. Qed.
+(* Ptuple: every repeat yields the rows of the n-ary zip of fresh streams, ending with the shortest *)
+Theorem ptuple_rows : forall (rnd : oracle) k m lp (r : nat), lp <> [] ->
+  (forall q, In q lp -> snd (den rnd k Str q) = EStop) ->
+  (exists q, In q lp /\ (length (fst (den rnd k Str q)) < k)%nat) -> (r < k)%nat ->
+  den rnd (S k) m (Ptuple lp (Fin (Z.of_nat r))) =
+  (concat (repeat (map VT (zipn k (map (fun q => fst (den rnd k Str q)) lp))) r), EStop).
+Proof. exact ptuple_rows_l. Qed.
+(* Pswitch1: each index takes ONE value of the chosen persistent stream; the others are untouched *)
+Theorem pswitch1_takes_one : forall (rnd : oracle) k m lst w iv lw ew z (pre : list trace) v l' e (post : list trace),
+  den rnd k Str w = (iv :: lw, ew) -> as_index iv = Some z -> lst <> [] ->
+  split_at (Z.to_nat (z mod Z.of_nat (length lst))) (map (den rnd k Str) lst) = Some (pre, (v :: l', e), post) ->
+  den rnd (S k) m (Pswitch1 lst w) = tcons v (tsw1 (pre ++ (l', e) :: post) lw ew).
+Proof. exact pswitch1_l. Qed.
+Theorem pflatten_flattens : forall (rnd : oracle) k m q nv n l e, as_num nv = Some n ->
+  den rnd (S k) Str q = (l, e) -> (length l < k)%nat ->
+  den rnd (S (S k)) m (Pflatten q (PVal nv)) =
+  (flat_map (fun v => match v with VL _ => flat (Z.to_nat (Qround.Qceiling (toQ n))) [v] | _ => [v] end) l, e).
+Proof. exact pflatten_l. Qed.
+Theorem pdiff_differences : forall (rnd : oracle) k m q v l e, den rnd k Str q = (v :: l, e) ->
+  (forall a b, In a (v :: l) -> In b (v :: l) -> binop BSub a b <> None) ->
+  exists l', den rnd (S k) m (Pdiff q) = (l', e) /\ length l' = length l /\
+             map Some l' = map (fun ab => binop BSub (snd ab) (fst ab)) (combine (v :: l) l).
+Proof. exact pdiff_l. Qed.
+Theorem pseries_arithmetic : forall (rnd : oracle) k m a c (n : nat), (n <= k)%nat ->
+  den rnd (S (S k)) m (Pseries (I a) (PVal (VN (I c))) (Fin (Z.of_nat n))) =
+  (map (fun i => VN (I (a + Z.of_nat i * c))) (seq 0 n), EStop).
+Proof. exact pseries_l. Qed.
+Theorem pgeom_geometric : forall (rnd : oracle) k m a c (n : nat), (n <= k)%nat ->
+  den rnd (S (S k)) m (Pgeom (I a) (PVal (VN (I c))) (Fin (Z.of_nat n))) =
+  (map (fun i => VN (I (a * c ^ Z.of_nat i))) (seq 0 n), EStop).
+Proof. exact pgeom_l. Qed.
+Theorem pcollect_maps : forall (rnd : oracle) k m f q l e, den rnd k Str q = (l, e) ->
+  (forall v, In v l -> fn_apply f v <> None) ->
+  exists l', den rnd (S k) m (Pfun KCollect f q) = (l', e) /\ map Some l' = map (fn_apply f) l.
+Proof. exact pcollect_l. Qed.
+Theorem pselect_filters : forall (rnd : oracle) k m f q l e, den rnd k Str q = (l, e) ->
+  (forall v, In v l -> fn_apply f v <> None) ->
+  den rnd (S k) m (Pfun KSelect f q) = (filter (fun v => is_true (fn_apply f v)) l, e).
+Proof. exact pselect_l. Qed.
+Theorem preject_filters : forall (rnd : oracle) k m f q l e, den rnd k Str q = (l, e) ->
+  (forall v, In v l -> fn_apply f v <> None) ->
+  den rnd (S k) m (Pfun KReject f q) = (filter (fun v => is_false (fn_apply f v)) l, e).
+Proof. exact preject_l. Qed.
+Theorem pif_chooses : forall (rnd : oracle) k m c x y lc ec, den rnd (S k) Str c = (lc, ec) -> (length lc <= k)%nat ->
+  den rnd (S (S k)) m (Pif c (PVal x) (PVal y)) = (map (fun v => if truthy v then x else y) lc, ec).
+Proof. exact pif_l. Qed.
+Theorem pwrap_wraps_each : forall (rnd : oracle) k m q lo hi l e, den rnd (S k) Str q = (l, e) -> (length l < k)%nat ->
+  (forall v, In v l -> narop NWrap v lo hi <> None) ->
+  exists l', den rnd (S (S k)) m (Pwrap q (PVal lo) (PVal hi)) = (l', e) /\
+             map Some l' = map (fun v => narop NWrap v lo hi) l.
+Proof. exact pwrap_l. Qed.
+Theorem punop_maps : forall (rnd : oracle) k m o q l e, den rnd k Str q = (l, e) ->
+  (forall v, In v l -> unop o v <> None) ->
+  exists l', den rnd (S k) m (Punop o q) = (l', e) /\ map Some l' = map (unop o) l.
+Proof. exact punop_l. Qed.
+Theorem narop_ends_with_shortest : forall (rnd : oracle) k m o a b c la ea lb eb lc ec,
+  den rnd k Str a = (la, ea) -> den rnd k Str b = (lb, eb) -> den rnd k Str c = (lc, ec) ->
+  (forall va vb vc, In va la -> In vb lb -> In vc lc -> narop o va vb vc <> None) ->
+  exists l', den rnd (S k) m (Pnarop o a b c) = (l', end3 la lb lc ea eb ec) /\
+             length l' = Nat.min (length la) (Nat.min (length lb) (length lc)) /\
+             map Some l' = map (fun abc => narop o (fst abc) (fst (snd abc)) (snd (snd abc))) (combine la (combine lb lc)).
+Proof. exact pnarop_l. Qed.
+(* seeded random patterns.  Prand: r items, the i-th chosen by the generator's next draw (history =
+   the earlier draws since the seed), each embedded in place *)
+Theorem pseed_prand_draws : forall (rnd : oracle) k m sd l sv z (r : nat),
+  den rnd k Str sd = ([sv], EStop) -> as_index sv = Some z -> l <> [] ->
+  (forall q, In q l -> snd (den rnd k Emb q) = EStop) -> (r < k)%nat -> rand_ok rnd l z r [] ->
+  den rnd (S k) m (PseedRand sd l (Fin (Z.of_nat r))) = (rand_out rnd (den rnd k Emb) l z r [], EStop).
+Proof. exact pseed_prand_l. Qed.
+(* Pxrand never yields the same item twice in a row (generator contract: 0 <= randrange(0, n) < n) *)
+Theorem pxrand_never_repeats : forall (rnd : oracle) l z h index q index' h',
+  (2 <= length l)%nat -> (0 <= index < Z.of_nat (length l))%Z ->
+  (0 <= rnd z h 0 (Z.of_nat (length l) - 1) < Z.of_nat (length l) - 1)%Z ->
+  xrand_step rnd l z h index = Some (q, index', h') ->
+  index' <> index /\ (0 <= index' < Z.of_nat (length l))%Z /\ nth_error l (Z.to_nat index') = Some q.
+Proof. exact xrand_never_repeats. Qed.
+(* Pwhite (int bounds) stays within its bounds *)
+Theorem pwhite_in_bounds : forall (rnd : oracle) lo hi z h v h' a b, lo = VN (I a) -> hi = VN (I b) ->
+  ((a < b -> a <= rnd z h a b < b) /\ (b < a -> b < rnd z h a b <= a))%Z ->
+  white_draw rnd lo hi z h = Some (v, h') ->
+  exists x, v = VN (I x) /\ (Z.min a b <= x <= Z.max a b)%Z.
+Proof. exact white_in_bounds. Qed.
+
 (* --- immutability.  Two streams of one pattern under ANY interleaving of steps each do what a
    single stream does (seeded random patterns included: the oracle is a function of the seed and
    of the calls made on that stream's own generator) ... *)
@@ -181,6 +275,23 @@ Example ex_emptied : run_pat no_rnd 100 10 (Pseq [i 1; Pseq [] (Fin 2) 3; Place 
   ([VN (I 1); VN (I 2)], RStop) /\ run_pat no_rnd 100 10 (Pseq [i 1; Pser [] (Fin 1) 0] (Fin 1) 0) = ([VN (I 1)], RErr).
 Proof. vm_compute. split; reflexivity. Qed.
 
+Example ex_place : den no_rnd 30 Str (Place [[i 1]; [i 2; i 3]; [i 4; i 5; i 6]] (Fin 3) 0) =
+  (map (fun z => VN (I z)) [1; 2; 4; 1; 3; 5; 1; 2; 6]%Z, EStop).
+Proof. vm_compute. reflexivity. Qed.
+Example ex_select_diff_geom : den no_rnd 30 Str (Pfun KSelect FEven (Pdiff (Pgeom (I 1) (i 3) (Fin 5)))) =
+  (map (fun z => VN (I z)) [2; 6; 18; 54]%Z, EStop).
+Proof. vm_compute. reflexivity. Qed.
+Example ex_zipn : zipn 5 [[VN (I 1); VN (I 2); VN (I 3)]; [VB true; VNone]] = [[VN (I 1); VB true]; [VN (I 2); VNone]].
+Proof. vm_compute. reflexivity. Qed.
+Definition tblx : list (Z * hist * Z * Z * Z) := [(7, [], 0, 3, 2); (7, [(0, 3)], 0, 2, 1); (7, [(0, 2); (0, 3)], 0, 2, 0)]%Z.
+Example ex_xrand_step : xrand_step (mk_rnd tblx) [i 10; i 20; i 30] 7 [(0, 3)%Z] 2 = Some (i 20, 1%Z, [(0, 2); (0, 3)]%Z).
+Proof. vm_compute. reflexivity. Qed.
+Example ex_xrand : den (mk_rnd tblx) 30 Str (PseedXrand (Pseq [i 7] (Fin 1) 0) [i 10; i 20; i 30] (Fin 2)) =
+  (map (fun z => VN (I z)) [20; 30]%Z, EStop).
+Proof. vm_compute. reflexivity. Qed.
+
 Print Assumptions run_eq_den.
 Print Assumptions pconst_sums_exactly.
 Print Assumptions seeded_same_sequence.
+Print Assumptions pxrand_never_repeats.
+Print Assumptions ptuple_rows.
